@@ -25,6 +25,9 @@ fn call(ctx: &mut Ctx, what: &str, x: Dd, f: fn(TwoFloat) -> TwoFloat) -> Option
 
 /// |x| <= 2^20: uniform, log-uniform towards 0, k*pi/4 + delta
 fn trig_arg(ctx: &mut Ctx) -> Dd {
+    if let Some(c) = maybe_constant(ctx, 25, false) {
+        return c;
+    }
     let c = ctx.weighted(&[4, 4, 6, 2, 1]);
     let x = match c {
         0 => {
@@ -37,7 +40,12 @@ fn trig_arg(ctx: &mut Ctx) -> Dd {
         }
         1 => {
             ctx.label("arg:log-uniform");
-            dd_exp(ctx, -300, 19, false)
+            if ctx.flag() {
+                dd_exp(ctx, -300, 19, false)
+            } else {
+                // every valid x with |x| <= 2^20 is in the domain, down to the smallest normal numbers
+                dd_exp(ctx, -1022, 19, false)
+            }
         }
         2 => {
             // k pi/4 + delta, both sides of every reduction switch
@@ -98,6 +106,10 @@ fn c16_sincos(ctx: &mut Ctx) {
     };
     note_dd(ctx, "sin", s);
     note_dd(ctx, "cos", c);
+    crate::p_forms::routes_agree(ctx, "sin", x, s);
+    crate::p_forms::routes_agree(ctx, "cos", x, c);
+    crate::p_forms::routes_agree(ctx, "sin_cos.0", x, s);
+    crate::p_forms::routes_agree(ctx, "sin_cos.1", x, c);
     check!(ctx, same_dd(sc.0, s) && same_dd(sc.1, c), "sin_cos({}) = ({}, {}) differs from (sin, cos) = ({}, {})", x.show(), sc.0.show(), sc.1.show(), s.show(), c.show());
     let v = x.big();
     if v.is_zero() {
@@ -131,6 +143,7 @@ fn c16_tan(ctx: &mut Ctx) {
     note_dd(ctx, "x", x);
     let Some(t) = call(ctx, "tan", x, inh::tan) else { return };
     note_dd(ctx, "tan", t);
+    crate::p_forms::routes_agree(ctx, "tan", x, t);
     let v = x.big();
     if v.is_zero() {
         check!(ctx, both_zero(t), "tan(0) = {}", t.show());
@@ -179,6 +192,9 @@ pub fn c16() -> Property {
 
 /// x in [-1, 1] with the approaches to +-1, +-1/2 and 0
 fn unit_arg(ctx: &mut Ctx) -> Dd {
+    if let Some(c) = maybe_constant(ctx, 25, false) {
+        return c;
+    }
     let c = ctx.weighted(&[4, 4, 3, 3, 2, 1]);
     let x = match c {
         0 => {
@@ -255,6 +271,8 @@ fn c17_asin_acos(ctx: &mut Ctx) {
     let Some(c) = call(ctx, "acos", x, inh::acos) else { return };
     note_dd(ctx, "asin", a);
     note_dd(ctx, "acos", c);
+    crate::p_forms::routes_agree(ctx, "asin", x, a);
+    crate::p_forms::routes_agree(ctx, "acos", x, c);
     let v = x.big();
     let one = Big::one();
     if v.abs() > one {
@@ -300,9 +318,12 @@ fn c17_atan(ctx: &mut Ctx) {
         }
         1 => {
             ctx.label("arg:log-uniform");
-            dd_exp(ctx, -60, 59, false)
+            dd_closed(ctx, -60, 60, false)
         }
-        2 => dd_exp(ctx, -300, 59, false),
+        2 => match maybe_constant(ctx, 4, false) {
+            Some(k) => k,
+            None => dd_closed(ctx, -1022, 60, false),
+        },
         _ => {
             ctx.label("zero");
             Dd::new(if ctx.flag() { -0.0 } else { 0.0 }, 0.0)
@@ -312,6 +333,7 @@ fn c17_atan(ctx: &mut Ctx) {
     note_dd(ctx, "x", x);
     let Some(r) = call(ctx, "atan", x, inh::atan) else { return };
     note_dd(ctx, "atan", r);
+    crate::p_forms::routes_agree(ctx, "atan", x, r);
     let v = x.big();
     if v.is_zero() {
         check!(ctx, both_zero(r), "atan(0) = {}", r.show());
@@ -328,10 +350,16 @@ fn c17_atan(ctx: &mut Ctx) {
 }
 
 fn c17_atan2(ctx: &mut Ctx) {
-    let y = dd_exp(ctx, -30, 29, false);
-    let c = ctx.weighted(&[4, 4, 2]);
+    let y = dd_closed(ctx, -30, 30, false);
+    let c = ctx.weighted(&[4, 4, 2, 1]);
     let x = match c {
-        0 => dd_exp(ctx, -30, 29, false),
+        3 => {
+            // the corners and edges of the operand box: |hi| exactly 2^30 or 2^-30
+            ctx.label("box-corner");
+            let hi = pow2_f64(if ctx.flag() { 30 } else { -30 }) * if ctx.flag() { -1.0 } else { 1.0 };
+            dd_at(ctx, hi)
+        }
+        0 => dd_closed(ctx, -30, 30, false),
         1 => {
             // ratio y/x across the atan breakpoints
             ctx.label("ratio:breakpoint");
@@ -346,6 +374,13 @@ fn c17_atan2(ctx: &mut Ctx) {
         }
         _ => related(ctx, y, -30, 29),
     };
+    // half of the corner cases put y on the opposite extreme
+    let y = if c == 3 && ctx.flag() {
+        let hi = pow2_f64(if x.hi.abs() > 1.0 { -30 } else { 30 }) * if ctx.flag() { -1.0 } else { 1.0 };
+        dd_at(ctx, hi)
+    } else {
+        y
+    };
     y.key(ctx);
     x.key(ctx);
     note_dd(ctx, "y", y);
@@ -358,6 +393,10 @@ fn c17_atan2(ctx: &mut Ctx) {
         }
     };
     note_dd(ctx, "atan2", r);
+    {
+        let via = guard(|| <TwoFloat as num_traits::Float>::atan2(y.tf(), x.tf())).map(Dd::of);
+        check!(ctx, via.as_ref().ok().map(|d| same_dd(*d, r)) == Some(true), "Float::atan2({}, {}) = {:?} differs from the inherent atan2 = {}", y.show(), x.show(), via.map(|d| d.show()), r.show());
+    }
     let (vy, vx) = (y.big(), x.big());
     let want = reference(ctx, |h| h.atan2(&vy, &vx));
     bounded(ctx, "atan2", r, &want, &p2(-69), &Big::zero());
@@ -411,6 +450,8 @@ fn c17_atan2_axes(ctx: &mut Ctx) {
     };
     let ok = if want.hi == 0.0 { r.hi == 0.0 && r.lo == 0.0 } else { same_dd(r, want) };
     check!(ctx, ok, "atan2({}, {}) = {} but the axis value is {}", y.show(), x.show(), r.show(), want.show());
+    let via = guard(|| <TwoFloat as num_traits::Float>::atan2(y.tf(), x.tf())).map(Dd::of);
+    check!(ctx, via.as_ref().ok().map(|d| same_dd(*d, r)) == Some(true), "Float::atan2({}, {}) = {:?} differs from the inherent atan2 = {} on the axes", y.show(), x.show(), via.map(|d| d.show()), r.show());
     ctx.set_nontrivial(true);
 }
 
@@ -466,6 +507,9 @@ fn c18_forward(ctx: &mut Ctx) {
     note_dd(ctx, "sinh", s);
     note_dd(ctx, "cosh", c);
     note_dd(ctx, "tanh", t);
+    crate::p_forms::routes_agree(ctx, "sinh", x, s);
+    crate::p_forms::routes_agree(ctx, "cosh", x, c);
+    crate::p_forms::routes_agree(ctx, "tanh", x, t);
     let v = x.big();
     if v.is_zero() {
         check!(ctx, both_zero(s) && both_zero(t) && c.hi == 1.0 && c.lo == 0.0, "sinh/cosh/tanh(0) = {} / {} / {}", s.show(), c.show(), t.show());
@@ -481,13 +525,55 @@ fn c18_forward(ctx: &mut Ctx) {
     ctx.set_nontrivial(x.lo != 0.0);
 }
 
+/// x = sinh / cosh / tanh of (k/4 or k/128) + delta, nearest double-double with a nudged low word:
+/// arguments whose results sit on the range-reduction grid of the exp used inside ln
+fn hyp_preimage(ctx: &mut Ctx, which: u64) -> Dd {
+    ctx.label("arg:pre-image-of-inner-switch");
+    let h = oracle::Hp::new(256);
+    let kmax = match which {
+        0 => 160,
+        1 => 160,
+        _ => 14,
+    };
+    let k = ctx.range(1, kmax);
+    let base = if ctx.flag() { Big::from_i64(k).mul_pow2(-2) } else { Big::from_i64(k * 8 + ctx.range(-3, 3)).mul_pow2(-7) };
+    let d = match ctx.below(4) {
+        0 => Big::zero(),
+        1 => Big::pow2(-ctx.range(40, 110)),
+        2 => Big::pow2(-ctx.range(40, 110)).neg(),
+        _ => Big::pow2(-ctx.range(10, 40)).neg(),
+    };
+    let t = base.add(&d);
+    let v = match which {
+        0 => h.sinh(&t),
+        1 => h.cosh(&t),
+        _ => h.tanh(&t),
+    };
+    let v = if which != 1 && ctx.flag() { v.neg() } else { v };
+    let dd = crate::p_conv::dd_from_big(&v);
+    let lo = step(dd.lo, ctx.range(-3, 3));
+    if lo.is_finite() && dd.hi + lo == dd.hi {
+        Dd::new(dd.hi, lo)
+    } else {
+        dd
+    }
+}
+
 fn c18_inverse(ctx: &mut Ctx) {
     let which = ctx.below(3);
-    let x = match which {
+    let x = if ctx.chance(1, 8) { hyp_preimage(ctx, which) } else { c18_inverse_arg(ctx, which) };
+    c18_inverse_eval(ctx, which, x)
+}
+
+fn c18_inverse_arg(ctx: &mut Ctx, which: u64) -> Dd {
+    if let Some(c) = maybe_constant(ctx, 30, false) {
+        return c;
+    }
+    match which {
         0 => {
             // asinh: |x| <= 2^60, both signs
             match ctx.weighted(&[5, 3, 1]) {
-                0 => dd_exp(ctx, -60, 59, false),
+                0 => dd_closed(ctx, -60, 60, false),
                 1 => {
                     let pv = [1.0, -1.0, 1e10, -1e10, 1e16, -1e16, 0.5, -0.5][ctx.below(8) as usize];
                     let hi = pivot_near(ctx, pv);
@@ -500,7 +586,7 @@ fn c18_inverse(ctx: &mut Ctx) {
             // acosh: 1 < x <= 2^60, approach to 1, exactly 1, below 1
             match ctx.weighted(&[4, 4, 1, 1]) {
                 0 => {
-                    let d = dd_exp(ctx, 0, 59, false);
+                    let d = dd_closed(ctx, 0, 60, false);
                     if d.hi < 0.0 {
                         d.neg()
                     } else {
@@ -581,7 +667,10 @@ fn c18_inverse(ctx: &mut Ctx) {
                 }
             }
         }
-    };
+    }
+}
+
+fn c18_inverse_eval(ctx: &mut Ctx, which: u64, x: Dd) {
     x.key(ctx);
     ctx.key_u64(which);
     let name = ["asinh", "acosh", "atanh"][which as usize];
@@ -590,6 +679,7 @@ fn c18_inverse(ctx: &mut Ctx) {
     let f: fn(TwoFloat) -> TwoFloat = [inh::asinh as fn(TwoFloat) -> TwoFloat, inh::acosh, inh::atanh][which as usize];
     let Some(r) = call(ctx, name, x, f) else { return };
     note_dd(ctx, "result", r);
+    crate::p_forms::routes_agree(ctx, name, x, r);
     let v = x.big();
     let one = Big::one();
     match which {
